@@ -456,6 +456,8 @@ void XSerializeEngine::read(XMLByte* const toRead
     {
         fillBuffer();
         memcpy(tempRead, fBufCur, fBufSize);
+        // this block is used up, even if it turns out to be the last one
+        fBufCur    += fBufSize;
         tempRead   += fBufSize;
         readRemain -= fBufSize;
     }
